@@ -41,6 +41,32 @@ Definition go_index {A} (site : Z) (l : list A) (i : Z) : outcome A :=
 Definition go_slice_from (site : Z) (b : list Z) (lo : Z) : outcome (list Z) :=
   of_opt site (slice lo (zlen b) b).
 
+(* b[lo:hi].  Go checks hi against cap(b), the transcription against len(b): an Ok result is what
+   Go computes, a Panic may be spurious when the slice has spare capacity. *)
+Definition go_slice (site : Z) (b : list Z) (lo hi : Z) : outcome (list Z) :=
+  of_opt site (slice lo hi b).
+
+(* copy(dst, src): the new contents of dst *)
+Definition go_copy (dst src : list Z) : list Z :=
+  let n := Nat.min (length dst) (length src) in firstn n src ++ skipn n dst.
+
+(* x[i] = v: the new contents of x *)
+Definition go_update (site : Z) (x : list Z) (i v : Z) : outcome (list Z) :=
+  if (0 <=? i) && (i <? zlen x)
+  then Ok (firstn (Z.to_nat i) x ++ v :: skipn (S (Z.to_nat i)) x)
+  else Panic site.
+
+(* binary.LittleEndian.UintN(b) / BigEndian (n = N/8 bytes): panics when b is shorter *)
+Definition go_le_uint (site : Z) (n : nat) (b : list Z) : outcome Z :=
+  if Z.of_nat n <=? zlen b then Ok (le_dec (firstn n b)) else Panic site.
+Definition go_be_uint (site : Z) (n : nat) (b : list Z) : outcome Z :=
+  if Z.of_nat n <=? zlen b then Ok (be_dec (firstn n b)) else Panic site.
+(* binary.LittleEndian.PutUintN(b, v): the new contents of b *)
+Definition go_le_put (site : Z) (n : nat) (b : list Z) (v : Z) : outcome (list Z) :=
+  if Z.of_nat n <=? zlen b then Ok (le_enc n v ++ skipn n b) else Panic site.
+Definition go_be_put (site : Z) (n : nat) (b : list Z) (v : Z) : outcome (list Z) :=
+  if Z.of_nat n <=? zlen b then Ok (be_enc n v ++ skipn n b) else Panic site.
+
 (* a / b and a % b with a divisor that is not a non-zero constant *)
 Definition go_divu (site a b : Z) : outcome Z := if b =? 0 then Panic site else Ok (a / b).
 Definition go_modu (site a b : Z) : outcome Z := if b =? 0 then Panic site else Ok (a mod b).
